@@ -6,6 +6,12 @@
 // several scales q -> q*M (homomorphic scaling: the rule only adds), with
 // different policy ids / asset names and UTxO output types. The verdict of the
 // TLC row is the oracle; the driver computes no balance.
+//
+// Phase-2 flag: a row with p2 = true is built with is_valid = false (Alonzo
+// onwards). The driver calls the value-conservation rule alone, so nothing
+// else about the transaction has to change (no redeemer / collateral is needed
+// to get past other rules); the specification's verdict does not read the flag,
+// so the flagged replay must answer exactly like its unflagged twin.
 package main
 
 import (
@@ -59,6 +65,8 @@ type row struct {
 	Mintb  int64   `json:"mintb"`
 	Don    int64   `json:"don"`
 	Nprop  int     `json:"nprop"`
+	P2     bool    `json:"p2"`     // build the transaction with is_valid = false
+	P2Wire bool    `json:"p2wire"` // ... and the flag is part of the transaction's own encoding
 	Accept bool    `json:"accept"`
 	CC     int64   `json:"cc"`
 	PC     int64   `json:"pc"`
@@ -81,6 +89,7 @@ func eraIdx(e string) int {
 }
 
 func hasAssets(e string) bool { return eraIdx(e) >= 2 }
+func hasFlag(e string) bool   { return eraIdx(e) >= 3 } // the era's transaction type has TxIsValid
 
 func ents(es []ent) string {
 	p := make([]string, len(es))
@@ -235,6 +244,13 @@ func (g *gen) variants(r *row, idx int) []variant {
 		{sc: 0, mc: big.NewInt(1), ma: big.NewInt(1), pol: "rand"},
 		{sc: 1, mc: big.NewInt(1_000_000), ma: big.NewInt(7), pol: polClasses[idx%len(polClasses)], decoy: true, zeroes: idx%8 >= 4},
 		big3,
+	}
+	if r.P2 && (vs[1].pol == "zero" || vs[1].pol == "zeroname") {
+		// The all-zero policy id is a dimension of its own (and the place of the
+		// known deviation F-C27-b, whose keys name unflagged replays); it is
+		// crossed with the unflagged cases only. Flagged replays take the other
+		// two classes.
+		vs[1].pol = []string{"ff", "rand"}[(idx/4)%2]
 	}
 	if p := os.Getenv("C27_FORCE_POL"); p != "" { // replay of one saved case
 		vs[1].pol, vs[1].zeroes = p, os.Getenv("C27_FORCE_ZEROES") == "1"
@@ -581,6 +597,10 @@ func (g *gen) build(r *row, v *variant) (*built, error) {
 	if ei < 5 && (r.Don != 0 || r.Nprop != 0) {
 		return nil, fmt.Errorf("era %s has no donation / proposals", era)
 	}
+	if r.P2 && !hasFlag(era) {
+		return nil, fmt.Errorf("era %s has no is_valid flag", era)
+	}
+	isValid := !r.P2
 	propAddr, err := g.addr(0xE1)
 	if err != nil {
 		return nil, err
@@ -622,7 +642,7 @@ func (g *gen) build(r *row, v *variant) (*built, error) {
 		pp.KeyDeposit, pp.PoolDeposit = uint(key), uint(pool)
 		b.tx, b.pp = tx, &pp
 	case "alonzo":
-		tx := &alonzo.AlonzoTransaction{TxIsValid: true}
+		tx := &alonzo.AlonzoTransaction{TxIsValid: isValid}
 		tx.Body.TxInputs = shelley.NewShelleyTransactionInputSet(inputs)
 		for _, o := range outs {
 			tx.Body.TxOutputs = append(tx.Body.TxOutputs, *o.(*alonzo.AlonzoTransactionOutput))
@@ -633,7 +653,7 @@ func (g *gen) build(r *row, v *variant) (*built, error) {
 		pp.KeyDeposit, pp.PoolDeposit = uint(key), uint(pool)
 		b.tx, b.pp = tx, &pp
 	case "babbage":
-		tx := &babbage.BabbageTransaction{TxIsValid: true}
+		tx := &babbage.BabbageTransaction{TxIsValid: isValid}
 		tx.Body.TxInputs = shelley.NewShelleyTransactionInputSet(inputs)
 		for _, o := range outs {
 			tx.Body.TxOutputs = append(tx.Body.TxOutputs, *o.(*babbage.BabbageTransactionOutput))
@@ -644,7 +664,7 @@ func (g *gen) build(r *row, v *variant) (*built, error) {
 		pp.KeyDeposit, pp.PoolDeposit = uint(key), uint(pool)
 		b.tx, b.pp = tx, &pp
 	case "conway":
-		tx := &conway.ConwayTransaction{TxIsValid: true}
+		tx := &conway.ConwayTransaction{TxIsValid: isValid}
 		tx.Body.TxInputs = conway.NewConwayTransactionInputSet(inputs)
 		for _, o := range outs {
 			tx.Body.TxOutputs = append(tx.Body.TxOutputs, *o.(*babbage.BabbageTransactionOutput))
@@ -661,7 +681,7 @@ func (g *gen) build(r *row, v *variant) (*built, error) {
 		pp.KeyDeposit, pp.PoolDeposit, pp.DRepDeposit, pp.GovActionDeposit = uint(key), uint(pool), drep, gov
 		b.tx, b.pp = tx, &pp
 	case "dijkstra":
-		tx := &dijkstra.DijkstraTransaction{TxIsValid: true}
+		tx := &dijkstra.DijkstraTransaction{TxIsValid: isValid}
 		tx.Body.TxInputs = conway.NewConwayTransactionInputSet(inputs)
 		for _, o := range outs {
 			tx.Body.TxOutputs = append(tx.Body.TxOutputs, *o.(*dijkstra.DijkstraTransactionOutput))
@@ -678,6 +698,10 @@ func (g *gen) build(r *row, v *variant) (*built, error) {
 		cpp.KeyDeposit, cpp.PoolDeposit, cpp.DRepDeposit, cpp.GovActionDeposit = uint(key), uint(pool), drep, gov
 		b.tx, b.pp = tx, &dijkstra.DijkstraProtocolParameters{ConwayProtocolParameters: cpp}
 	}
+	if b.tx.IsValid() != isValid {
+		return nil, fmt.Errorf("era %s: built with is_valid = %v but IsValid() = %v", era, isValid, b.tx.IsValid())
+	}
+	b.dump["is_valid"] = isValid
 	b.dump["utxo_output_eras"] = b.utxoEras
 	b.dump["policy_a_b"] = []string{fmt.Sprintf("%x", v.policy[0].Bytes()), fmt.Sprintf("%x", v.policy[1].Bytes())}
 	b.dump["asset_name_a_b"] = []string{fmt.Sprintf("%x", v.name[0]), fmt.Sprintf("%x", v.name[1])}
@@ -763,6 +787,13 @@ func devClass(r *row, v *variant) string {
 
 var perClassCap = 6
 
+func flagNote(p2 bool) string {
+	if p2 {
+		return " [is_valid = false: the balance is checked all the same]"
+	}
+	return ""
+}
+
 func main() {
 	rep := vh.NewReporter()
 	if len(os.Args) < 2 {
@@ -793,8 +824,18 @@ func main() {
 				"UtxoValidateValueNotConservedUtxo is not in "+era+".UtxoValidationRules", map[string]any{"era": era})
 		}
 		// baseline: the harness can build an accepted and a rejected transaction for this era
-		for _, out := range []int64{2, 1} {
-			base := row{Era: era, Ins: []ent{{C: 3}}, Outs: []ent{{C: out}}, Fee: 1}
+		type probe struct {
+			out int64
+			p2  bool
+		}
+		probes := []probe{{2, false}, {1, false}}
+		if hasFlag(era) {
+			// the same two transactions flagged is_valid = false: same answers
+			probes = append(probes, probe{2, true}, probe{1, true})
+		}
+		for _, pr := range probes {
+			out := pr.out
+			base := row{Era: era, Ins: []ent{{C: 3}}, Outs: []ent{{C: out}}, Fee: 1, P2: pr.p2}
 			base.PP.Key, base.PP.Pool = 2, 3
 			if eraIdx(era) >= 5 {
 				base.PP.Drep, base.PP.Gov = 2, 3
@@ -805,6 +846,9 @@ func main() {
 				rep.Dead("baseline %s: %v", era, err)
 			}
 			key := fmt.Sprintf("baseline:era=%s:out=%d", era, out)
+			if pr.p2 {
+				key += ":p2invalid"
+			}
 			rep.Guard(key, base, func() {
 				err := er.fn(bt.tx, 0, bt.ls, bt.pp)
 				if k := errKind(err); k != "accepted" && k != "ValueNotConservedUtxoError" {
@@ -812,7 +856,7 @@ func main() {
 				}
 				rep.Case(key, true)
 				if (err == nil) != (out == 2) {
-					rep.Disagree(key, fmt.Sprintf("in 3 = out %d + fee 1: rule says %s", out, errKind(err)), base)
+					rep.Disagree(key, fmt.Sprintf("in 3 = out %d + fee 1%s: rule says %s", out, flagNote(pr.p2), errKind(err)), base)
 				}
 			})
 		}
@@ -828,6 +872,8 @@ func main() {
 	wireErr := map[string]string{}
 	otherErrs := map[string]int{}
 	sampled := map[string]bool{}
+	flagged := map[string]int{}
+	flaggedNoWire := map[string]int{}
 	for idx := range rows {
 		r := &rows[idx]
 		er := rules[r.Era]
@@ -844,6 +890,9 @@ func main() {
 			key := fmt.Sprintf("%s:nm=%s:sc=%d:pol=%s", ck, v.nm, v.sc, v.pol)
 			if v.zeroes {
 				key += ":zeroes"
+			}
+			if r.P2 {
+				key += ":p2invalid"
 			}
 			bt, err := g.build(r, &v)
 			if err != nil {
@@ -863,6 +912,9 @@ func main() {
 					} else {
 						stats["spec_reject"]++
 					}
+					if r.P2 {
+						flagged[r.Era+":spec_"+map[bool]string{true: "accept", false: "reject"}[r.Accept]]++
+					}
 					if k != "accepted" && k != "ValueNotConservedUtxoError" {
 						otherErrs[k]++
 					}
@@ -878,6 +930,7 @@ func main() {
 					if r.Merged && !r.Accept {
 						desc += " [balances only if assets a and b are confused]"
 					}
+					desc += flagNote(r.P2)
 					if err != nil {
 						desc += " (" + err.Error() + ")"
 					}
@@ -893,9 +946,16 @@ func main() {
 				})
 			}
 			run(key, bt.tx)
-			if v.sc == 1 {
+			if v.sc == 1 && r.P2 && !r.P2Wire {
+				// the era's transaction encoding cannot say is_valid = false (Dijkstra:
+				// the block names its invalid transactions); nothing to round-trip
+				flaggedNoWire[r.Era]++
+			} else if v.sc == 1 {
 				// the same transaction after an encode/decode round trip
 				wtx, err := wire(r.Era, bt.tx)
+				if err == nil && wtx.IsValid() == r.P2 {
+					err = fmt.Errorf("is_valid = %v became %v in the round trip", !r.P2, wtx.IsValid())
+				}
 				if err != nil {
 					wireSkipped[r.Era]++
 					if wireSkipped[r.Era] == 1 {
@@ -908,9 +968,12 @@ func main() {
 			}
 		}
 		sk := r.Era + "/" + r.Var[:min(len(r.Var), 3)]
-		if !sampled[sk] && len(r.Certs) >= 2 && len(sampled) < 5 {
+		if r.P2 {
+			sk = "p2invalid" // one flagged sample
+		}
+		if !sampled[sk] && len(r.Certs) >= 2 && (len(sampled) < 5 || r.P2) {
 			sampled[sk] = true
-			rep.Sample(map[string]any{"key": ck, "var": r.Var, "spec_accept": r.Accept,
+			rep.Sample(map[string]any{"key": ck, "var": r.Var, "spec_accept": r.Accept, "is_valid": !r.P2,
 				"consumed": []int64{r.CC, r.CA, r.CB}, "produced": []int64{r.PC, r.PA, r.PB}})
 		}
 	}
@@ -928,11 +991,13 @@ func main() {
 	rep.Extra["c27_wire_roundtrip_evaluations"] = stats["wire"]
 	rep.Extra["c27_wire_roundtrip_not_possible"] = wireSkipped
 	rep.Extra["c27_wire_roundtrip_first_error"] = wireErr
+	rep.Extra["c27_flagged_is_valid_false_evaluations"] = flagged
+	rep.Extra["c27_flagged_without_wire_roundtrip_flag_not_encodable"] = flaggedNoWire
 	rep.Extra["c27_not_judged"] = []string{
 		"Dijkstra direct deposits / sub-transactions (property silent; left empty)",
 		"certificates whose carried deposit differs from the protocol parameter (other rules decide)",
 		"zero deposit parameters (Conway rule answers InvalidCertificateDepositError, not a balance verdict)",
-		"phase-2 invalid transactions (collateral balance)",
+		"the collateral balance of phase-2 invalid transactions (not this property; consumed = produced is judged for them)",
 	}
 	rep.Finish()
 }
